@@ -173,9 +173,7 @@ func RunSrv(rc *RunCtx, sc *SrvScenario, sched *Tape, seed uint64, twinReplyLens
 	s := NewSim(sched)
 	s.Tracing = rc.Tracing
 	out := &SrvOutcome{Conns: make([]SrvConnOut, len(sc.Conns))}
-	server.SimBeforeLock = func(l *sync.RWMutex, write bool) { s.BeforeLock(l, write, "server") }
-	server.SimAfterLock = s.AfterLock
-	defer func() { server.SimBeforeLock, server.SimAfterLock = nil, nil }()
+	defer s.Activate()()
 
 	ln := NewListener(s, "L")
 	h := &srvHandler{s: s, dev: map[byte]*Device{}, seed: seed, modes: map[uint16]*SrvReq{}, out: out, stateless: sc.StatelessDevice}
